@@ -41,7 +41,9 @@ theorem decrypt_tie (P : Prims) {ι : Type} (E : GoTie.DecryptEnv P ι) (file : 
     ∃ res, Extracted.age_Decrypt E.D E.U GoTie.errorsIsEq E.mac E.newReader E.key file ids = .ok res ∧
       match (decryptInit P (ids.map E.idOf) file).1 with
       | .ok (k, payload) => res = (k ++ payload, none)
-      | .error (.fatal _) => res.2 ≠ none ∧ res.2 ≠ Extracted.age_ErrIncorrectIdentity
+      | .error (.fatal idx) => ∃ hdr payload j r, Format.parse file = .ok (hdr, payload) ∧ ids[idx]? = some j ∧
+          E.U j (hdr.stanzas.map GoTie.toGoStanza) = .ok r ∧ r.2 ≠ none ∧ r.2 ≠ Extracted.age_ErrIncorrectIdentity ∧
+          res = ([], r.2)
       | .error e => res = ([], GoTie.decryptErr e none) :=
   GoTie.decrypt_tie P E file ids
 
